@@ -384,6 +384,9 @@ def run(chk, repo):
     chk.clauses.append('C05.j (shared R-THREAD) an option value bound to a name that is itself a CLI option carries that very option')
     optname(chk, repo, 'C05.j', ['cli.call_variant_peptide'], floor=0)
     from rules.shared import copy_own_containers
+    from rules.C10 import rule_cleave
+    chk.clauses.append('C05.l (shared with C10.e / C04.h) enzymatic_cleave emits every window within the miscleavage limit and the M-cleaved form: the canonical pool grows monotonically with the limits')
+    rule_cleave(chk, repo, rid='C05.l')
     chk.clauses.append('C05.k (R-EFFECT) copy.copy() of the variant pool / of a transcript\'s variant series owns its containers: the fusion and circRNA units, which narrow a COPY of the pool, never alter what later units (or an added GVF\'s records) see')
     copy_own_containers(chk, repo, 'C05.k', ['seqvar.VariantRecordPool:VariantRecordPool', 'seqvar.VariantRecordPoolOnDisk:TranscriptionalVariantSeries'], floor=4)
 
